@@ -12,7 +12,7 @@ import re
 
 from vf.extract import match_brace, ExtractError
 from vf.unit import Unit, closure_at, lift_closure, unoption_pred, drop_capacity_hints
-from units.fuse import PRELUDE, types_from_repo
+from units.fuse import PRELUDE, types_from_repo, CAND_OK, IDC_REQ, IDC_ENS
 
 SPEC = r'''
 verus! {
@@ -91,6 +91,31 @@ pub proof fn lemma_table_done<F>(m: Map<WitnessId, usize>, l: Seq<usize>, v: Set
     assert forall|a: usize| v.contains(a) && (#[trigger] pos_entry(c, ops, a)) is Some implies m.dom().contains(pos_entry(c, ops, a).unwrap().0) by {
         assert(l.to_set().contains(a)); let j = choose|j: int| 0 <= j < l.len() && l[j] == a; assert(pos_entry(c, ops, l[j]) is Some);
     }
+}
+// ------------------------------------------------------------------ apply
+/// no two kept candidates replace the same mul (a product that is fused is read by exactly one add: `fusable`)
+pub open spec fn muls_unique<F>(c: Cands<F>, v: Set<usize>) -> bool {
+    forall|a: usize, b: usize| a != b && v.contains(a) && v.contains(b) && c.dom().contains(a) && c.dom().contains(b) ==> (#[trigger] c[a]).0 != (#[trigger] c[b]).0
+}
+pub open spec fn consumed<F>(c: Cands<F>, v: Set<usize>, i: usize) -> bool { v.contains(i) && c.dom().contains(i) }
+pub open spec fn repl_from<F>(c: Cands<F>, v: Set<usize>, i: usize, a: usize) -> bool { consumed(c, v, a) && c[a].0 == i }
+/// the fused op that takes the place of op i (a function of the SETS: independent of any iteration order)
+pub open spec fn repl_at<F>(c: Cands<F>, v: Set<usize>, i: usize) -> Option<Op<F>> {
+    if exists|a: usize| #[trigger] repl_from(c, v, i, a) { let a = choose|a: usize| #[trigger] repl_from(c, v, i, a); Some(c[a].1) } else { None }
+}
+/// the op list after fusion: consumed adds dropped, a fused mul replaced by its MulAdd, everything else in place and in order
+pub open spec fn apply_seq<F>(ops: Seq<Op<F>>, c: Cands<F>, v: Set<usize>, n: int) -> Seq<Op<F>> decreases n {
+    if n <= 0 { Seq::empty() } else {
+        let p = apply_seq(ops, c, v, n - 1);
+        if consumed(c, v, (n - 1) as usize) { p } else { p.push(match repl_at(c, v, (n - 1) as usize) { Some(o) => o, None => ops[n - 1] }) }
+    }
+}
+pub proof fn lemma_repl_unique<F>(c: Cands<F>, v: Set<usize>, i: usize, a: usize)
+    requires muls_unique(c, v), repl_from(c, v, i, a)
+    ensures repl_at(c, v, i) == Some(c[a].1)
+{
+    let b = choose|b: usize| #[trigger] repl_from(c, v, i, b);
+    if a != b { assert(c[a].0 != c[b].0); }
 }
 /// `m.keys().copied().collect()` into a hash set
 #[verifier::external_body]
@@ -180,10 +205,10 @@ def hash_iteration_skeletons(f, lifted):
 
 
 def build():
-    u = Unit('fvalid', ['C02', 'C18'])
+    u = Unit('fvalid', ['C02', 'C03', 'C18'])
     u.rlimit = 100
     u.assume('hashbrown maps/sets treated as std ones (R7); key model of WitnessId; iteration over a hash container = iteration over an arbitrary duplicate-free listing of it (trait Listing, external_body)')
-    u.assume('filter_valid precondition `outs_unique`: no two candidates write the same slot -- identify_candidates admits only an add that is the LAST definer of its out (not under contract here)')
+    u.assume('C18 only: the determinism postcondition of filter_valid is conditional on `outs_unique` (no two candidates write the same slot); in the real pipeline the later of two adds writing one slot is a backwards add, which try_fuse rejects through backwards_computed -- that implication is NOT proved here')
     u.text(PRELUDE.replace('@@TYPES@@', types_from_repo()))
     u.text(open(__file__.replace('fvalid.py', 'fuse_defs.rs')).read())
     u.text(SPEC)
@@ -214,10 +239,9 @@ def build():
             g.ensures('kept_iff_the_addend_is_available_before_the_mul', 'ret == keep(this.defs@, candidates@, fused_positions@, k_)')
     POST = ('exists|fp: Map<WitnessId, usize>| #[trigger] positions_rel(fp, {v}, candidates@, ops@) && forall|a: usize| {v}.contains(a) ==> keep(self.defs@, candidates@, fp, a)')
     DET = 'exists|n: nat| {v} == #[trigger] fv_iter(self.defs@, candidates@, ops@, n) && fv_step(self.defs@, candidates@, ops@, {v}) == {v}'
-    fv.requires('no_two_candidates_write_the_same_slot', 'outs_unique(candidates@, ops@)')
     fv.ensures('kept_are_candidates', 'ret@.subset_of(candidates@.dom())')
     fv.ensures('every_kept_addend_is_available_before_its_mul_given_the_kept_fusions', POST.format(v='ret@'))
-    fv.ensures('kept_set_is_the_first_fixpoint_whatever_the_hash_order', DET.format(v='ret@'))
+    fv.ensures('kept_set_is_the_first_fixpoint_whatever_the_hash_order', 'outs_unique(candidates@, ops@) ==> (' + DET.format(v='ret@') + ')')
 
     def mark(tag, text):
         fv.body = fv.body.replace(f'/*@{tag}*/', text)
@@ -258,6 +282,7 @@ def build():
                 }}
             }}''')
             mark(f'{t}:after', f'''proof {{ vstd::set_lib::lemma_len_subset({SET}, v0_);
+              if outs_unique(candidates@, ops@) {{
                 assert forall|a: usize| keep(self.defs@, candidates@, fused_positions@, a) == keep_of(self.defs@, candidates@, ops@, v0_, a) by {{ lemma_keep_is_keep_of(self.defs@, fused_positions@, v0_, candidates@, ops@, a); }}
                 assert({SET} =~= fv_step(self.defs@, candidates@, ops@, v0_)) by {{
                     assert forall|a: usize| v0_.contains(a) && keep(self.defs@, candidates@, fused_positions@, a) implies {SET}.contains(a) by {{
@@ -266,6 +291,7 @@ def build():
                 }}
                 let n0 = choose|n: nat| v0_ == #[trigger] fv_iter(self.defs@, candidates@, ops@, n);
                 assert({SET} == fv_iter(self.defs@, candidates@, ops@, n0 + 1));
+              }}
             }}''')
     fv.body = re.sub(r'/\*@\w+:\w+\*/', '', fv.body)
     # the round's exit: same size after a round that only removes = nothing was removed
@@ -295,10 +321,121 @@ def build():
     if lm:
         fv.rewrite_re('SPEC', r'\bloop\s*\{', 'loop /*@main*/ {')
         fv.loop('loop /*@main*/', invariants=[
-            ('kept_so_far_is_a_round_of_the_iteration', 'valid@.subset_of(candidates@.dom()) && valid@.finite() && outs_unique(candidates@, ops@) && (exists|n: nat| valid@ == #[trigger] fv_iter(self.defs@, candidates@, ops@, n))'),
+            ('kept_so_far_is_a_round_of_the_iteration', 'valid@.subset_of(candidates@.dom()) && valid@.finite() && (outs_unique(candidates@, ops@) ==> (exists|n: nat| valid@ == #[trigger] fv_iter(self.defs@, candidates@, ops@, n)))'),
         ], ensures=[
-            ('exit_is_a_fixpoint', 'valid@.subset_of(candidates@.dom()) && (' + DET.format(v='valid@') + ') && (' + POST.format(v='valid@') + ')'),
+            ('exit_is_a_fixpoint', 'valid@.subset_of(candidates@.dom()) && (outs_unique(candidates@, ops@) ==> (' + DET.format(v='valid@') + ')) && (' + POST.format(v='valid@') + ')'),
         ], decreases='valid@.len()')
+    # ---------------------------------------------------------------- apply
+    from vf.unit import normalize_let_chains, uniter_collect
+    ap = u.extract(FM, IMPL, 'apply', 'MulAddFusion::apply')
+    ap.rewrite_re('R7', r'hashbrown::(HashSet|HashMap)', r'\1', where='sig')
+    ap.rewrite_re('R7', r'hashbrown::(HashSet|HashMap)', r'\1')
+    ap.rewrite_re('R7', r'let mut consumed_adds = HashSet::new\(\);', 'let mut consumed_adds: HashSet<usize> = HashSet::new();', min_count=0)
+    drop_capacity_hints(ap, ctors=('HashSet', 'HashMap', 'Vec'))
+    normalize_let_chains(ap)
+    # the tail pipeline gets a name so that the pipeline compiler (R6) can turn it into a loop
+    ap.body = re.sub(r'(\bops\s*\.\s*into_iter\(\).*?\.collect\(\))\s*\}\s*$', r'let out_: Vec<Op<F>> = \1;\nout_\n}', ap.body, flags=re.S)
+    uniter_collect(ap)
+    hash_iteration_skeletons(ap, [])
+    ap.requires('no_two_kept_candidates_replace_the_same_mul', 'muls_unique(candidates@, valid@)')
+    ap.requires('op_count_fits', 'ops@.len() < usize::MAX')
+    ap.ensures('consumed_adds_dropped_fused_muls_replaced_rest_in_place_whatever_the_hash_order', 'ret@ == apply_seq(ops@, candidates@, valid@, ops@.len() as int)')
+    ap.at_start('let ghost c0 = candidates@; let ghost o0 = ops@; let ghost vs = valid@;')
+    L1 = 'for i_for0_ in 0..l_for0_.len()'
+    if L1 in ap.body and re.search(r'let l_for0_ = valid\.listing\(\);', ap.body):
+        lo = ap._loop_open(L1)
+        ap.body = ap.body[:lo + 1] + ' let ghost mr0_ = mul_replacements@; let ghost ca0_ = consumed_adds@; let ghost cd0_ = candidates@;' + ap.body[lo + 1:]
+        ap.at_loop_end(L1, '''proof {
+                let a = l_for0_@[i_for0_ as int];
+                if c0.dom().contains(a) {
+                    assert(cd0_.dom().contains(a) && cd0_[a] == c0[a]);
+                    if mr0_.dom().contains(c0[a].0) {
+                        let j = choose|j: int| 0 <= j < i_for0_ && c0.dom().contains(l_for0_@[j]) && (#[trigger] c0[l_for0_@[j]]).0 == c0[a].0;
+                        assert(vs.contains(l_for0_@[j]) && vs.contains(a)) by { assert(l_for0_@.to_set().contains(l_for0_@[j])); assert(l_for0_@.to_set().contains(a)); }
+                        assert(false);
+                    }
+                    assert forall|m: usize| #[trigger] mul_replacements@.dom().contains(m) implies exists|j: int| 0 <= j < i_for0_ + 1 && c0.dom().contains(l_for0_@[j]) && (#[trigger] c0[l_for0_@[j]]).0 == m by {
+                        if mr0_.dom().contains(m) { let j = choose|j: int| 0 <= j < i_for0_ && c0.dom().contains(l_for0_@[j]) && (#[trigger] c0[l_for0_@[j]]).0 == m; assert(c0[l_for0_@[j]].0 == m); } else { assert(c0[l_for0_@[i_for0_ as int]].0 == m); }
+                    }
+                } else {
+                    assert(!cd0_.dom().contains(a));
+                }
+            }''')
+        ap.loop(L1, invariants=[
+            ('listing', 'l_for0_@.to_set() == vs && l_for0_@.no_duplicates() && vs == valid@ && muls_unique(c0, vs)'),
+            ('candidates_not_yet_taken', 'forall|k: usize| (#[trigger] candidates@.dom().contains(k) <==> c0.dom().contains(k) && !(exists|j: int| 0 <= j < i_for0_ && l_for0_@[j] == k)) && (candidates@.dom().contains(k) ==> candidates@[k] == c0[k])'),
+            ('consumed_adds_are_the_listed_candidates', 'forall|x: usize| #[trigger] consumed_adds@.contains(x) <==> c0.dom().contains(x) && (exists|j: int| 0 <= j < i_for0_ && l_for0_@[j] == x)'),
+            ('replacements_are_the_fused_ops_of_the_listed_candidates', '''(forall|m: usize| #[trigger] mul_replacements@.dom().contains(m) ==> exists|j: int| 0 <= j < i_for0_ && c0.dom().contains(l_for0_@[j]) && (#[trigger] c0[l_for0_@[j]]).0 == m)
+                && (forall|j: int| 0 <= j < i_for0_ && c0.dom().contains(#[trigger] l_for0_@[j]) ==> mul_replacements@.dom().contains(c0[l_for0_@[j]].0) && mul_replacements@[c0[l_for0_@[j]].0] == c0[l_for0_@[j]].1)'''),
+        ])
+    L2 = 'for e_i_ops in it_i_ops: ops'
+    if L2 in ap.body:
+        ap.before('let out_: Vec<Op<F>> =', '''let ghost mrf = mul_replacements@;
+        proof {
+            assert forall|x: usize| consumed_adds@.contains(x) == consumed(c0, vs, x) by {
+                if consumed(c0, vs, x) { assert(l_for0_@.to_set().contains(x)); let j = choose|j: int| 0 <= j < l_for0_@.len() && l_for0_@[j] == x; assert(l_for0_@[j] == x); }
+                if consumed_adds@.contains(x) { let j = choose|j: int| 0 <= j < l_for0_@.len() && l_for0_@[j] == x; assert(l_for0_@.to_set().contains(l_for0_@[j])); }
+            }
+            assert forall|i: usize| (#[trigger] mrf.dom().contains(i) ==> repl_at(c0, vs, i) == Some(mrf[i])) && (!mrf.dom().contains(i) ==> repl_at(c0, vs, i) is None) by {
+                if mrf.dom().contains(i) {
+                    let j = choose|j: int| 0 <= j < l_for0_@.len() && c0.dom().contains(l_for0_@[j]) && (#[trigger] c0[l_for0_@[j]]).0 == i;
+                    assert(l_for0_@.to_set().contains(l_for0_@[j])); assert(repl_from(c0, vs, i, l_for0_@[j])); lemma_repl_unique(c0, vs, i, l_for0_@[j]);
+                } else if exists|a: usize| #[trigger] repl_from(c0, vs, i, a) {
+                    let a = choose|a: usize| #[trigger] repl_from(c0, vs, i, a);
+                    assert(l_for0_@.to_set().contains(a)); let j = choose|j: int| 0 <= j < l_for0_@.len() && l_for0_@[j] == a; assert(c0.dom().contains(l_for0_@[j]));
+                }
+            }
+        }''')
+        lo = ap._loop_open(L2)
+        ap.body = ap.body[:lo + 1] + ' let ghost v_b_ = v0_@; let ghost mr_b_ = mul_replacements@;' + ap.body[lo + 1:]
+        ap.at_loop_end(L2, '''proof {
+                let i = (c_i_ops - 1) as usize;
+                assert(apply_seq(o0, c0, vs, c_i_ops as int) == (if consumed(c0, vs, i) { apply_seq(o0, c0, vs, i as int) } else { apply_seq(o0, c0, vs, i as int).push(match repl_at(c0, vs, i) { Some(o) => o, None => o0[i as int] }) }));
+            }''')
+        ap.loop(L2, invariants=[
+            ('frame', 'c_i_ops == it_i_ops.index@ && it_i_ops.seq() == o0 && o0.len() < usize::MAX && (forall|x: usize| consumed_adds@.contains(x) == consumed(c0, vs, x))'),
+            ('replacements_of_later_positions_untouched', '''(forall|i: usize| (#[trigger] mrf.dom().contains(i) ==> repl_at(c0, vs, i) == Some(mrf[i])) && (!mrf.dom().contains(i) ==> repl_at(c0, vs, i) is None))
+                && (forall|i: usize| i >= c_i_ops ==> (#[trigger] mul_replacements@.dom().contains(i) <==> mrf.dom().contains(i)) && (mrf.dom().contains(i) ==> mul_replacements@[i] == mrf[i]))'''),
+            ('output_so_far', 'v0_@ == apply_seq(o0, c0, vs, c_i_ops as int)'),
+        ])
+    # ---------------------------------------------------------------- run: the three phases composed (callee contracts only)
+    rn = u.extract(FM, IMPL, 'run', 'MulAddFusion::run')
+    rn.rewrite_re('R12', r'\bSelf::', 'MulAddFusion::')
+    rn.requires(*IDC_REQ)
+    rn.requires('op_count_fits', 'ops@.len() < usize::MAX')
+    rn.ensures('result_is_the_op_list_with_a_sound_set_of_fusions_applied', '''exists|c: Cands<F>, v: Set<usize>| #![trigger apply_seq(ops@, c, v, ops@.len() as int)]
+            (forall|k: usize| #[trigger] c.dom().contains(k) ==> cand_ok(&self, ops@, k, c[k])) && v.subset_of(c.dom())
+            && (exists|fp: Map<WitnessId, usize>| #[trigger] positions_rel(fp, v, c, ops@) && forall|a: usize| v.contains(a) ==> keep(self.defs@, c, fp, a))
+            && ret@ == apply_seq(ops@, c, v, ops@.len() as int)''')
+    if re.search(r'let valid = self\.filter_valid\(&ops, &candidates\);', rn.body):
+        rn.rewrite_re('SPEC', r'(let valid = self\.filter_valid\(&ops, &candidates\);)', r'\1 let ghost c_ = candidates@; let ghost v_ = valid@; let ghost o_ = ops@; proof { lemma_muls_unique(&self, o_, c_, v_); }')
+        rn.bind_tail('res_', 'proof { assert(res_@ == apply_seq(o_, c_, v_, o_.len() as int)); }')
+    u.text(CAND_OK)
+    u.text('''verus! {
+/// a product fused into one add is read by no other op (`fusable`), so no two candidates replace the same mul
+pub proof fn lemma_muls_unique<F: Field>(s: &MulAddFusion<F>, ops: Seq<Op<F>>, c: Cands<F>, v: Set<usize>)
+    requires forall|k: usize| #[trigger] c.dom().contains(k) ==> cand_ok(s, ops, k, c[k])
+    ensures muls_unique(c, v)
+{
+    assert forall|a: usize, b: usize| a != b && v.contains(a) && v.contains(b) && c.dom().contains(a) && c.dom().contains(b) implies (#[trigger] c[a]).0 != (#[trigger] c[b]).0 by {
+        if c[a].0 == c[b].0 {
+            assert(cand_ok(s, ops, a, c[a]) && cand_ok(s, ops, b, c[b]));
+            let i = c[a].0 as int; let m = addmul_parts(ops[i]).unwrap().3;
+            assert(fusable(ops, a as int, i, c[a].1) && fusable(ops, b as int, i, c[b].1));
+            assert(!rel_mentions(ops[b as int], m));
+            assert(false);
+        }
+    }
+}
+impl<F: Field> MulAddFusion<F> {
+    /// contract PROVED in unit `fuse` (same text); assumed here
+    #[verifier::external_body]
+    pub fn identify_candidates(&self, ops: &[Op<F>]) -> (ret: HashMap<usize, (usize, Op<F>, WitnessId)>)
+        requires ''' + IDC_REQ[1] + '''
+        ensures ''' + IDC_ENS[1] + '''
+    { unimplemented!() }
+}
+}''')
     u.text('verus! {\nimpl<F: Field> MulAddFusion<F> {')
     u.emit(di)
     u.emit(ep)
@@ -307,5 +444,7 @@ def build():
         u.emit(g)
     u.text('impl<F: Field> MulAddFusion<F> {')
     u.emit(fv)
+    u.emit(ap)
+    u.emit(rn)
     u.text('}\n}')
     return u
